@@ -151,7 +151,13 @@ pub fn decode_total(data: &[u8]) -> c06::Case {
             5 | 6 => Op::ReadSet(a % 3),
             7 | 8 => Op::ReadExact(a % 3, 1 + b % 8),
             9 => Op::Seek(((a as u16) << 8) | b as u16),
-            10 => Op::SetPolicy(policy(a, b, false)),
+            10 => {
+                if b >= 200 {
+                    Op::ShrinkSet(a % 3)
+                } else {
+                    Op::SetPolicy(policy(a, b, false))
+                }
+            }
             _ => {
                 if a < 40 {
                     Op::IntoRecords
